@@ -128,6 +128,8 @@ func (c *Ctx) RunDocs(fams []string, fn DocFn) {
 		case "W1R":
 			workload.W1R(sink)
 			workload.W1D(sink)
+			workload.W1N(sink)
+			workload.W1S(sink)
 		case "W2T":
 			workload.W2T(c.Thorough(), sink)
 		case "W2small": // a smaller sample for monitors whose per-case cost is high
